@@ -87,23 +87,35 @@ def cli_case(ctx, rows, batch_size, tmp):
 
     src = os.path.join(tmp, "in.csv")
     dst = os.path.join(tmp, "out.csv")
+    # pass-through columns: an ordinary one and columns named like the pipeline's own working columns (the caller's values,
+    # not the pipeline's, must come back next to the reaction they were given with)
+    extra = {
+        "tag": lambda i: "tag%d" % i,
+        "id": lambda i: str(1001 + 3 * i),
+        "products": lambda i: "given-products-%d" % i,
+        "reactants": lambda i: "given-reactants-%d" % i,
+        "Unnamed: 0": lambda i: "u%d" % i,
+    }
+    cols = ["tag"] + sorted(set(extra) - {"tag"})
     with open(src, "w", newline="") as f:
         w = csv.writer(f)
-        w.writerow(["reaction", "tag"])
+        w.writerow(["reaction"] + cols)
         for i, x in enumerate(rows):
-            w.writerow([x, "tag%d" % i])
+            w.writerow([x] + [extra[c](i) for c in cols])
     err = None
     try:
-        impute(src, dst, "reaction", ["tag"], 0, n_jobs=1, batch_size=batch_size)
-        df = pd.read_csv(dst, keep_default_na=False)
+        impute(src, dst, "reaction", list(cols), 0, n_jobs=1, batch_size=batch_size)
+        df = pd.read_csv(dst, keep_default_na=False, dtype=str)
     except SystemExit as e:
         err = "SystemExit %s" % e
     except Exception as e:
         err = "%s: %s" % (type(e).__name__, e)
-    ctx.case(("cli", json.dumps(rows), batch_size), nontrivial=True)
+    ctx.case(("cli", json.dumps(rows), batch_size, tuple(cols)), nontrivial=True)
     ctx.count("form:cli")
+    for c in cols:
+        ctx.count("cli-passthrough-column:" + c)
     if err is not None:
-        ctx.violation("cli-run-failed", {"rows": rows, "batch_size": batch_size}, err, "synrbl/SynCmd/cmd_run.py:impute")
+        ctx.violation("cli-run-failed", {"rows": rows, "batch_size": batch_size, "out_columns": cols}, err, "synrbl/SynCmd/cmd_run.py:impute")
         return
     if len(df) != len(rows):
         ctx.violation("row-count-differs-from-input", {"form": "cli", "rows": rows}, "csv has %d rows" % len(df),
@@ -111,9 +123,11 @@ def cli_case(ctx, rows, batch_size, tmp):
         return
     for i, x in enumerate(rows):
         want, ok = expected_input(x)
-        if df["tag"][i] != "tag%d" % i or str(df["input_reaction"][i]) != str(want):
-            ctx.violation("cli-passthrough-column-shifted", {"rows": rows, "batch_size": batch_size, "position": i},
-                          "tag=%s input_reaction=%s expected tag%d / %s" % (df["tag"][i], df["input_reaction"][i], i, want),
+        got = {c: (df[c][i] if c in df.columns else "<column missing>") for c in cols}
+        exp = {c: extra[c](i) for c in cols}
+        if got != exp or str(df["input_reaction"][i]) != str(want):
+            ctx.violation("cli-passthrough-column-shifted", {"rows": rows, "batch_size": batch_size, "position": i, "out_columns": cols},
+                          "passthrough=%s input_reaction=%s expected %s / %s" % (got, df["input_reaction"][i], exp, want),
                           "synrbl/SynCmd/cmd_run.py:impute")
             return
 
@@ -151,6 +165,17 @@ def sequences(ctx, maxlen, per_len):
             for pos in rng.sample(range(n), k):
                 rows[pos] = rng.choice(MALFORMED)
             out.append(rows)
+    # two rejected rows of different kinds next to each other, in both orders, between valid rows (the rejected rows are taken
+    # out of the batch and put back: their relative order and the rows behind them must not move)
+    kinds = ["xx>>C", "CC", None, float("nan"), 12, "CC(C)(C)(C)(C)C>>CCO", ""]
+    for a, b in itertools.permutations(kinds, 2):
+        out.append(["C>>C", a, b, "CCO>>CC=O", "CC>>CC"])
+    for _ in range(per_len):
+        n = rng.randint(4, max(4, maxlen + 2))
+        rows = [rng.choice(VALID) for _ in range(n)]
+        for pos in rng.sample(range(n), rng.randint(2, n - 1)):
+            rows[pos] = rng.choice(MALFORMED)
+        out.append(rows)
     # every single position of every malformed kind in a 3-row list
     for m in MALFORMED:
         for pos in range(3):
@@ -200,8 +225,10 @@ def run(ctx):
         MODULE,
         "input lists of 1-4 (quick) / 1-6 (thorough) cheap valid reactions with 1-2 rows replaced by a malformed kind (unparsable "
         "SMILES, no '>>', 'A>B>C', two '>>', empty sides/string, single '>', None, NaN, a number) at seeded positions plus every "
-        "kind at every position of a 3-row list; each list run as list of SMILES and as list of dicts under batch sizes "
-        "{None,1,2,n,n+1}; CSV through the command-line entry point with a pass-through column; the DataLoader slicing is "
+        "kind at every position of a 3-row list, every ordered pair of 7 rejected kinds side by side between valid rows, and lists "
+        "with 2..n-1 rejected rows of mixed kinds; each list run as list of SMILES and as list of dicts under batch sizes "
+        "{None,1,2,n,n+1}; CSV through the command-line entry point with pass-through columns (an ordinary one and columns "
+        "named like the pipeline's working columns: id, products, reactants, 'Unnamed: 0'); the DataLoader slicing is "
         "compared with the Lean `chunks` model (non-trivial = list with a malformed row; distinct by form and list)",
         ["a bare None/number inside a *list of SMILES* is rejected by the dataset constructor (type error), so those kinds are "
          "only fed in dictionary / CSV form"],
